@@ -498,7 +498,7 @@ class EscapeAnalysis:
             changed = False
             rounds += 1
             for f in eng.repo.all_funcs():
-                new = frozenset(self._block(f, f.node.body))
+                new = frozenset(self._block(f, f.node.body)) - {'<cancel>'}
                 if new != self.esc[f]:
                     self.esc[f] = new
                     changed = True
@@ -589,6 +589,8 @@ class EscapeAnalysis:
                     m = cfgmod.handler_catches(h, 'exc', None if t == '*' else t)
                     if m in ('must', 'may'):
                         hc.add(t)
+                if not names or any(n in ('CancelledError', 'BaseException') for n in names):
+                    hc.add('<cancel>')      # a bare `raise` here may just pass the cancellation on
                 handler_out |= self._block(fn, h.body, frozenset(hc))
             out = remaining | handler_out | self._block(fn, st.orelse, caught) | self._block(fn, st.finalbody, caught)
             return out
